@@ -2,7 +2,21 @@ from ...utils import assert_is_instance
 from ..system import Environment, System
 
 
-class Asset:
+class _AssetType(type):
+    '''Registers a newly created Asset with the System once all of
+    its constructors have finished, so that an Asset created while
+    the simulation is in progress is fully constructed before the
+    System initializes it.
+    '''
+
+    def __call__(cls, *args, **kwargs):
+        asset = super().__call__(*args, **kwargs)
+        if not asset._is_transitory:
+            System.add_asset(asset)
+        return asset
+
+
+class Asset(metaclass = _AssetType):
     '''Base class to be used for all simulated assets in production.
 
     Arguments
@@ -33,10 +47,10 @@ class Asset:
         self._value = self._initial_value = value
         self._value_history = []
 
-        if is_transitory == False:
-            # Will trigger initialize(env) to be called if simulation is
-            # already in progress.
-            System.add_asset(self)
+        # Registering with the System (see _AssetType) will trigger
+        # initialize(env) to be called if simulation is already in
+        # progress.
+        self._is_transitory = is_transitory
 
     def initialize(self, env):
         '''Prepare Asset for simulation and reset attributes to
